@@ -11,24 +11,59 @@ LEAN_DIR = os.path.join(os.path.dirname(os.path.dirname(os.path.abspath(__file__
 sys.set_int_max_str_digits(0)
 
 
+class DriverDied(BaseException):
+    """the Lean driver process is gone: an infrastructure failure, never a verdict about rockit
+    (a BaseException so that no `except Exception` around rockit calls can mistake it for a rockit error)"""
+
+
 class Driver:
     def __init__(self):
-        self.p = subprocess.Popen(["lake", "env", "lean", "--run", "Main.lean"], cwd=LEAN_DIR,
-                                  stdin=subprocess.PIPE, stdout=subprocess.PIPE, text=True, bufsize=1 << 20)
+        import tempfile
+        self.errfile = tempfile.NamedTemporaryFile(prefix="lean-driver-", suffix=".err", dir="/var/tmp", delete=False)
         self.lines_sent = 0
+        # start under the build lock and wait until Main.lean is elaborated and every .olean is loaded: a concurrent
+        # `lake build` of another check (only after a source change) must not replace files under a starting driver
+        from . import leanproj as LP
+
+        def start():
+            self.p = subprocess.Popen(["lake", "env", "lean", "--run", "Main.lean"], cwd=LEAN_DIR,
+                                      stdin=subprocess.PIPE, stdout=subprocess.PIPE, stderr=self.errfile, text=True, bufsize=1 << 20)
+            self.p.stdin.write("mbegin\nrun ping\n")
+            self.p.stdin.flush()
+            while True:
+                line = self.p.stdout.readline()
+                if not line:
+                    raise self._dead()
+                if line.strip() == "end":
+                    break
+        LP._locked(start)
+
+    def _dead(self):
+        try:
+            self.errfile.flush()
+            tail = open(self.errfile.name).read()[-1500:]
+        except Exception:
+            tail = ""
+        return DriverDied("Lean driver died (exit %s) after %d lines; stderr: %s" % (self.p.poll(), self.lines_sent, tail))
 
     def send(self, lines):
-        self.p.stdin.write("\n".join(lines) + "\n")
+        try:
+            self.p.stdin.write("\n".join(lines) + "\n")
+        except (BrokenPipeError, OSError):
+            raise self._dead()
         self.lines_sent += len(lines)
 
     def run(self, what):
-        self.p.stdin.write("run " + what + "\n")
-        self.p.stdin.flush()
+        try:
+            self.p.stdin.write("run " + what + "\n")
+            self.p.stdin.flush()
+        except (BrokenPipeError, OSError):
+            raise self._dead()
         out = []
         while True:
             line = self.p.stdout.readline()
             if not line:
-                raise RuntimeError("Lean driver died; sent %d lines" % self.lines_sent)
+                raise self._dead()
             line = line.rstrip("\n")
             if line == "end":
                 break
@@ -44,6 +79,11 @@ class Driver:
             self.p.wait(timeout=10)
         except Exception:
             self.p.kill()
+        try:
+            self.errfile.close()
+            os.unlink(self.errfile.name)
+        except Exception:
+            pass
 
 
 def frac(s):
